@@ -16,6 +16,11 @@ from pathlib import Path
 PY = "/venv/bin/python"
 
 
+if __import__("subprocess").run(["git", "-C", "/repo", "status", "--porcelain", "--untracked-files=no"], capture_output=True, text=True).stdout.strip():
+    print('{"error": "refusing to run: /repo has uncommitted changes (this tool restores /repo with git checkout -- .)"}')
+    raise SystemExit(3)
+
+
 def sh(cmd, cwd=None, timeout=900):
     r = subprocess.run(cmd, shell=True, cwd=cwd, capture_output=True, text=True, timeout=timeout)
     return r.returncode, r.stdout + r.stderr
